@@ -459,10 +459,105 @@ class Interp:
 
     def st_If(self, s, fr):
         c = truthy(self.ctx, self.eval(s.test, fr))
+        if is_sym(c) and fr.contract is not None and fr.contract.pure_calls and self._simple_block(s.body, fr) and self._simple_block(s.orelse, fr):
+            # if-conversion: both arms are plain assignments of pure expressions -> conditional assignment, no fork
+            self._merge_if(c, s, fr)
+            return
         if self.ctx.branch(c):
             self.exec_block(s.body, fr)
         else:
             self.exec_block(s.orelse, fr)
+
+    def _pure(self, e, fr):
+        pc = fr.contract.pure_calls if fr.contract is not None else ()
+        if isinstance(e, ast.Constant):
+            return True
+        if isinstance(e, ast.Name):
+            return True
+        if isinstance(e, ast.Attribute):
+            return self._pure(e.value, fr)
+        if isinstance(e, ast.UnaryOp) and isinstance(e.op, ast.Not):
+            return self._pure(e.operand, fr)
+        if isinstance(e, ast.BoolOp):
+            return all(self._pure(v, fr) for v in e.values)
+        if isinstance(e, ast.Compare):
+            return self._pure(e.left, fr) and all(self._pure(c, fr) for c in e.comparators) and all(isinstance(o, (ast.Eq, ast.NotEq, ast.Is, ast.IsNot, ast.Lt, ast.LtE, ast.Gt, ast.GtE)) for o in e.ops)
+        if isinstance(e, ast.Call):
+            try:
+                d = ast.unparse(e.func)
+            except Exception:
+                return False
+            return (d in pc or d == 'isinstance') and all(self._pure(a, fr) for a in e.args) and not e.keywords
+        return False
+
+    def _simple_block(self, stmts, fr):
+        for st in stmts:
+            if isinstance(st, ast.Assign) and len(st.targets) == 1 and self._pure(st.value, fr):
+                t = st.targets[0]
+                if isinstance(t, ast.Name) or (isinstance(t, ast.Attribute) and isinstance(t.value, ast.Name)):
+                    continue
+                return False
+            if isinstance(st, ast.If) and self._pure(st.test, fr) and self._simple_block(st.body, fr) and self._simple_block(st.orelse, fr):
+                continue
+            if isinstance(st, ast.Pass):
+                continue
+            return False
+        return True
+
+    def _targets(self, stmts, out):
+        for st in stmts:
+            if isinstance(st, ast.Assign):
+                out.append(st.targets[0])
+            elif isinstance(st, ast.If):
+                self._targets(st.body, out)
+                self._targets(st.orelse, out)
+        return out
+
+    def _merge_if(self, c, s, fr):
+        tg = []
+        for t in self._targets(s.body, []) + self._targets(s.orelse, []):
+            k = ast.unparse(t)
+            if k not in [ast.unparse(x) for x in tg]:
+                tg.append(t)
+
+        def read(t):
+            try:
+                return self.eval(_as_load(t), fr)
+            except Unsupported:
+                return _UNSET
+
+        before = [read(t) for t in tg]
+
+        def run(block):
+            self.ctx.spec_mode += 1  # no forking inside: nested simple ifs merge recursively
+            try:
+                for st in block:
+                    if isinstance(st, ast.Assign):
+                        self.assign(st.targets[0], self.eval(st.value, fr), fr)
+                    elif isinstance(st, ast.If):
+                        cc = truthy(self.ctx, self.eval(st.test, fr))
+                        if isinstance(cc, bool):
+                            run(st.body if cc else st.orelse)
+                        else:
+                            self._merge_if(cc, st, fr)
+            finally:
+                self.ctx.spec_mode -= 1
+            return [read(t) for t in tg]
+
+        def restore():
+            for t, v in zip(tg, before):
+                if v is not _UNSET:
+                    self.assign(t, v, fr)
+
+        a = run(s.body)
+        restore()
+        b = run(s.orelse)
+        for t, va, vb in zip(tg, a, b):
+            if va is _UNSET and vb is _UNSET:
+                continue
+            if va is _UNSET or vb is _UNSET:
+                raise Unsupported(f'if-conversion: {ast.unparse(t)} is bound on one arm only')
+            self.assign(t, z_ite(c, va, vb), fr)
 
     def st_With(self, s, fr):
         # instrumentation managers are dropped, body kept
@@ -603,6 +698,16 @@ class Interp:
                 ln = ctx.fresh(f'{name}@{tag}!size')
                 ctx.assume(ln >= 0)
                 f_.locs[name] = VObj(None, {'bool!': simp(ln != 0), '__len__': ln, 'opaque!': True}, name)
+        for path in sorted(_mutated_fields(s.body)):
+            base, attr = path
+            try:
+                o = fr.lookup(base)
+            except Unsupported:
+                continue
+            if isinstance(o, VObj) and type(o.fields.get(attr)).__name__ in ('VDict', 'VList'):
+                ln = ctx.fresh(f'{base}.{attr}@{tag}!size')
+                ctx.assume(ln >= 0)
+                o.fields[attr] = VObj(None, {'bool!': simp(ln != 0), '__len__': ln, 'opaque!': True}, f'{base}.{attr}')
         for fld in _assigned_self_fields(s.body):
             o = fr.locs.get('self')
             if isinstance(o, VObj) and fld in o.fields:
@@ -818,6 +923,10 @@ class Interp:
                 if isinstance(e.op, ast.Or) and v is True:
                     return True
                 vals.append(v)
+            return simp(z_and(*vals) if isinstance(e.op, ast.And) else z_or(*vals))
+        if fr.contract is not None and fr.contract.pure_calls and all(self._pure(x, fr) for x in e.values):
+            # operands are declared pure and total: no short-circuit fork needed
+            vals = [truthy(ctx, self.eval(x, fr)) for x in e.values]
             return simp(z_and(*vals) if isinstance(e.op, ast.And) else z_or(*vals))
         # Python semantics: value of the deciding operand
         v = None
@@ -1139,6 +1248,8 @@ class Interp:
                 except TypeError:
                     pass
             return simp(z_or(*[self.equals(item, x, node) for x in keys]))
+        if isinstance(container, VSeq) and container.contains is not None:
+            return container.contains(item)
         if isinstance(container, VObj) and 'contains!' in container.fields:
             return container.fields['contains!'](self, container, item)
         if isinstance(container, VBytes) and is_int(item):
@@ -1576,6 +1687,21 @@ def _mutated_names(stmts):
                     b = b.value
                 if isinstance(b, ast.Name):
                     out.add(b.id)
+    return out
+
+
+def _mutated_fields(stmts):
+    """(base, attr) of `base.attr.method(...)` calls and `base.attr[...] = ` stores: field containers mutated in place"""
+    out = set()
+    for s in stmts:
+        for n in ast.walk(s):
+            t = None
+            if isinstance(n, ast.Call) and isinstance(n.func, ast.Attribute):
+                t = n.func.value
+            elif isinstance(n, ast.Subscript) and isinstance(n.ctx, ast.Store):
+                t = n.value
+            if isinstance(t, ast.Attribute) and isinstance(t.value, ast.Name):
+                out.add((t.value.id, t.attr))
     return out
 
 
